@@ -636,6 +636,67 @@ def streamFrom (sch : Schema) (orc : Oracle) (root : MsgDesc) (bd : Binding) (rq
 def streamTranscode (sch : Schema) (orc : Oracle) (root : MsgDesc) (bd : Binding) (rq : Request) (decs : List Dec) : List (Except Err Msg) :=
   streamFrom sch orc root bd rq none decs
 
+/-! ## the forwarder's pump (grpcadapter/forwarder.go forwardIncomingToOutgoing) -/
+
+/-- `transcodeFunc` on a request message that is NOT necessarily fresh: the bound transcoder layers body,
+    path variables and query on top of whatever message it is handed. (For body "*" the JSON codec resets the
+    message first; that is not modelled here — `transcodeOnto` is used with `[]`, and in the witness of the
+    reuse variant with a binding without body.) -/
+def bodyStageOnto (sch : Schema) (root : MsgDesc) (bd : Binding) (dec : Dec) (m : Msg) : Except Err Msg :=
+  if bd.bodyPath.isEmpty then .ok m
+  else match traverseFieldPath sch root m bd.bodyPath with
+    | .error e => .error e
+    | .ok t =>
+      match dec with
+      | .none => .ok t.msg
+      | .err => .error .invalidArgument
+      | .eof => .error .eof
+      | .ok es => .ok (es.foldl (fun acc e => Msg.put acc (t.pre ++ e.1) e.2) t.msg)
+
+def transcodeOnto (sch : Schema) (orc : Oracle) (root : MsgDesc) (bd : Binding) (dec : Dec) (rq : Request) (m : Msg) : Except Err Msg :=
+  match bodyStageOnto sch root bd dec m with
+  | .error e => .error e
+  | .ok m0 =>
+    match pathStage sch orc root m0 rq.pathParams with
+    | .error e => .error e
+    | .ok m1 =>
+      if !shouldParseQuery bd then .ok m1
+      else queryStage sch orc root (filterSeqs bd rq.pathParams) m1 rq.query
+
+/-- The pump of a transcoded client stream: for every incoming message
+      `msg := params.Method.Input.New()`  (a FRESH message, `[]`),  `Incoming.Recv(ctx, msg)` (= transcode onto msg),
+      `Outgoing.Send(ctx, msg)`;
+    the first error ends the forwarding. Result: the messages the target is sent. -/
+def pump (sch : Schema) (orc : Oracle) (root : MsgDesc) (bd : Binding) (rq : Request) : List Dec → List Msg
+  | [] => []
+  | d :: rest =>
+    match transcodeOnto sch orc root bd d rq [] with
+    | .error _ => []
+    | .ok m => m :: pump sch orc root bd rq rest
+
+/-- the variant with ONE message allocated before the loop and handed to every `Recv` (seeded change C04-m6) -/
+def pumpReuse (sch : Schema) (orc : Oracle) (root : MsgDesc) (bd : Binding) (rq : Request) : Msg → List Dec → List Msg
+  | _, [] => []
+  | msg, d :: rest =>
+    match transcodeOnto sch orc root bd d rq msg with
+    | .error _ => []
+    | .ok m => m :: pumpReuse sch orc root bd rq m rest
+
+/-! ## resolution of `google.protobuf.Any` type URLs (bridgedesc.Target.TypeResolver) -/
+
+/-- `FindMessageByURL`: the full name is what follows the last '/' (the whole URL if there is none) -/
+def urlTypeName (url : Bytes) : Bytes :=
+  match lastIndexOf 47 url with
+  | some i => url.drop (i + 1)
+  | none => url
+
+/-- the resolver production installs (`dynamicpb.NewTypes(files)`): the messages of the target's own files, nothing else -/
+def anyResolves (targetMsgs : List Name) (url : Bytes) : Bool := targetMsgs.contains (urlTypeName url)
+
+/-- the variant that retries the process-global registry on NotFound (seeded change C04-m5) -/
+def anyResolvesFallback (targetMsgs globalMsgs : List Name) (url : Bytes) : Bool :=
+  targetMsgs.contains (urlTypeName url) || globalMsgs.contains (urlTypeName url)
+
 /-! ## the gateway library variant (what the code called before the fix, D4) -/
 
 /-- grpc-gateway `runtime.parseField`, enum branch: the enum is looked up by full name in a
